@@ -95,6 +95,15 @@ theorem C03_parseExe_total_current (bytes : List UInt8) (tail : Tail) :
     (ExeCF.parseExe genCM { varTypeOptional := Gen.exeVarTypeOptional } (sdlFuel bytes) bytes tail).2.oof = false :=
   C03_parseExe_total genCM gen_numStart_isNum_all _ bytes tail
 
+theorem gen_quote_not_space : genCM.isSpace 34 = false := by decide
+
+/-- **C03 for schema text on the tree of this run**: when the translator finds the empty-token guard in
+`parseSDL` (D01 repaired), the scanner returns for every byte string and reader ending; while it does not
+find it, `C03_current_hang` applies instead. -/
+theorem C03_parseSDL_total_current (h : Gen.sdlEmptyTokenSpins = false) (bytes : List UInt8) (tail : Tail) :
+    (parseSDL genCM { emptyTokenSpins := Gen.sdlEmptyTokenSpins } (sdlFuel bytes) bytes tail).2.oof = false := by
+  rw [h]; exact C03_parseSDL_total genCM gen_numStart_isNum_all gen_quote_not_space bytes tail
+
 /-- white space is never a token character (so a token ends at the first blank) -/
 theorem gen_space_not_token : (List.range 256).all (fun n => !(genCM.isSpace (UInt8.ofNat n) && genCM.isToken (UInt8.ofNat n))) = true := by
   decide +kernel
